@@ -68,7 +68,7 @@ func (c05) Budget(tier string) runner.Budget {
 
 func (c05) Describe() runner.Description {
 	return runner.Description{
-		Rule:        "each plan: a seeded tree of 2..12 valid blocks (<=3 siblings per parent; different/equal TotalQN, higher/lower/equal prove value, with and without transfer transactions, siblings sharing transactions) generated with the node's own cast/verify/assemble API, then delivered to a fresh node in a seeded order with duplicates, orphans-before-parents, re-deliveries and restarts; in about a third of the plans one branch arrives through the sync path instead (a fork store rooted at the common ancestor, every block verified and executed on the fork, then merged: blockChainFork.triggerOnChain), as one delivery; the deliveries between two restarts run as one task of the seeded scheduler, so that a goroutine the node starts while handling a delivery is a task interleaved with the following deliveries. evaluations = invariant evaluations: after every delivery on the live node, and - fault enumeration - on a new incarnation booted from the disk image after EVERY individual store write of every delivery that wrote (exhaustive per plan). A quarter of the plans run the node in full-node mode (notifications published by goroutines started during insertion and removal, as scheduler tasks with at most 0-2 preemptions). For a sixth of the crash images the restart's own repair writes are crash points too (a second process death during recovery). Invariant: head reachable from genesis by parent links; height index = that chain (cache bypassed and cached); nothing indexed above the head; verify-hash exactly up to the head; persisted head record = head; head state opens and fully resolves; no add/remove mark at quiescence; without crash the head only moves to a chain of not-lower weight (TotalQN, then prove value, then hash at the fork point); after a crash inside a head change the head is the old head, the new head or a common ancestor; transactions of canonical blocks are executed with a receipt naming their canonical block, those of removed blocks are not executed and (live) pending again; after the crash the restarted node accepts a valid extension of its head. distinct_nontrivial = distinct (tree shape, delivery order, crash index) triples whose delivery changed the head.",
+		Rule:        "each plan: a seeded tree of 2..12 valid blocks (<=3 siblings per parent; different/equal TotalQN, higher/lower/equal prove value, with and without transfer transactions, siblings sharing transactions) generated with the node's own cast/verify/assemble API, then delivered to a fresh node in a seeded order with duplicates, orphans-before-parents, re-deliveries and restarts; in about a third of the plans one branch arrives through the sync path instead (a fork store rooted at the common ancestor, every block verified and executed on the fork, then merged: blockChainFork.triggerOnChain), as one delivery; the deliveries between two restarts run as one task of the seeded scheduler, so that a goroutine the node starts while handling a delivery is a task interleaved with the following deliveries. evaluations = invariant evaluations: after every delivery on the live node, and - fault enumeration - on a new incarnation booted from the disk image after EVERY individual store write of every delivery that wrote (exhaustive per plan). A quarter of the plans run the node in full-node mode (notifications published by goroutines started during insertion and removal, as scheduler tasks with at most 0-2 preemptions). For a sixth of the crash images the restart's own repair writes are crash points too (a second process death during recovery). Invariant: head reachable from genesis by parent links; height index = that chain (cache bypassed and cached); nothing indexed above the head; verify-hash exactly up to the head; persisted head record = head; head state opens and fully resolves; no add/remove mark at quiescence; without crash the head only moves to a chain of not-lower weight (TotalQN, then prove value, then hash at the fork point); after a crash inside a head change the head is the old head, the new head or a common ancestor (a delivery that merges several blocks is a sequence of head changes: every head it passed through counts as a new head); transactions of canonical blocks are executed with a receipt naming their canonical block, those of removed blocks are not executed and (live) pending again; after the crash the restarted node accepts a valid extension of its head. distinct_nontrivial = distinct (tree shape, delivery order, crash index) triples whose delivery changed the head.",
 		Assumptions: []string{"stub ConsensusHelper accepts group signatures / VRF (judged by C13-C16)", "crash = process death after a completed store write (no torn or lost writes)", "the pending pool is memory-only by design, so 'pending again' is asserted on the live node and for the block the restart rolls back"},
 		Real:        []string{"core/blockchain*.go (add, insert, remove, consistency repair, fork choice, verify, cast)", "service tx pool + executed store", "core/vmexecutor + executors (transfers, rewards, refunds)", "storage/account + trie on real goleveldb over simulated storage", "types wire codecs (block records)"},
 		Stub:        []string{"ConsensusHelper", "network / sync processor (not started; its fork-store merge is driven directly)", "NTP clock"},
@@ -557,6 +557,7 @@ func (c05) Exec(raw json.RawMessage, st *simrt.Stats, log *simrt.Log) *simrt.Vio
 		disk     *simdisk.Disk
 		ev, k, w int
 		old, new common.Hash
+		passed   []common.Hash // in-memory heads seen at the store writes of this delivery
 	}
 	var images []image
 	delivered := map[int]bool{}
@@ -636,8 +637,14 @@ func (c05) Exec(raw json.RawMessage, st *simrt.Stats, log *simrt.Log) *simrt.Vio
 		}
 		oldHead := n.Chain.TopBlock().Hash
 		var mids []*simdisk.Disk
+		var passed []common.Hash
 		if p.Crash {
-			node.OnWrite = func(idx int, kind string) { mids = append(mids, disk.Clone()) }
+			node.OnWrite = func(idx int, kind string) {
+				mids = append(mids, disk.Clone())
+				if tb := n.Chain.TopBlock(); tb != nil && (len(passed) == 0 || passed[len(passed)-1] != tb.Hash) {
+					passed = append(passed, tb.Hash)
+				}
+			}
 		}
 		w0 := node.Writes
 		verified, tried := core.SimSyncMerge(anc, blocks)
@@ -672,7 +679,7 @@ func (c05) Exec(raw json.RawMessage, st *simrt.Stats, log *simrt.Log) *simrt.Vio
 			}
 		}
 		for j, m := range mids {
-			images = append(images, image{disk: m, ev: i, k: j + 1, w: len(mids), old: oldHead, new: newHead})
+			images = append(images, image{disk: m, ev: i, k: j + 1, w: len(mids), old: oldHead, new: newHead, passed: passed})
 		}
 		return nil
 	}
@@ -713,8 +720,14 @@ func (c05) Exec(raw json.RawMessage, st *simrt.Stats, log *simrt.Log) *simrt.Vio
 			}
 			delivered[d] = true
 			var mids []*simdisk.Disk
+			var passed []common.Hash
 			if p.Crash {
-				node.OnWrite = func(idx int, kind string) { mids = append(mids, disk.Clone()) }
+				node.OnWrite = func(idx int, kind string) {
+					mids = append(mids, disk.Clone())
+					if tb := n.Chain.TopBlock(); tb != nil && (len(passed) == 0 || passed[len(passed)-1] != tb.Hash) {
+						passed = append(passed, tb.Hash)
+					}
+				}
 			}
 			w0 := node.Writes
 			res := n.Chain.AddBlockOnChain(blk)
@@ -752,7 +765,7 @@ func (c05) Exec(raw json.RawMessage, st *simrt.Stats, log *simrt.Log) *simrt.Vio
 			}
 			for j, m := range mids {
 				if j+1 < len(mids) || true {
-					images = append(images, image{disk: m, ev: i, k: j + 1, w: len(mids), old: oldHead, new: newHead})
+					images = append(images, image{disk: m, ev: i, k: j + 1, w: len(mids), old: oldHead, new: newHead, passed: passed})
 				}
 			}
 		}
@@ -823,6 +836,27 @@ func (c05) Exec(raw json.RawMessage, st *simrt.Stats, log *simrt.Log) *simrt.Vio
 				ok = true
 			}
 		}
+		// a delivery that merges several blocks (sync path, or a block that releases cached future blocks) passes
+		// through heads that are NOT ancestors of its final head: b0, then the waiting orphan b1 on top of it,
+		// then a reorg to b0's heavier child b2. Each of them was the new head of one of the delivery's head
+		// changes. Allowed as well: every head the live node showed at one of this delivery's store writes that
+		// is not itself a block of the old branch, and the ancestors of such a head.
+		if !ok {
+			oldBranch := map[common.Hash]bool{}
+			for _, x := range k.ancestors(im.old) {
+				oldBranch[x] = true
+			}
+			for _, ph := range im.passed {
+				if oldBranch[ph] {
+					continue
+				}
+				for _, x := range k.ancestors(ph) {
+					if x == h {
+						ok = true
+					}
+				}
+			}
+		}
 		if !ok {
 			where := "not-old-new-or-common-ancestor"
 			// shape: is it an intermediate block of the old branch (multi-block removal interrupted)?
@@ -858,7 +892,7 @@ func (c05) Exec(raw json.RawMessage, st *simrt.Stats, log *simrt.Log) *simrt.Vio
 			}
 		}
 		if len(recovery) > 0 {
-			if v := c05SecondCrash(recovery, forks, k, im.ev, im.old, im.new, st, fmt.Sprintf("crash after store write %d of %d of delivery %d", im.k, im.w, im.ev)); v != nil {
+			if v := c05SecondCrash(recovery, forks, k, im.ev, im.old, im.new, im.passed, st, fmt.Sprintf("crash after store write %d of %d of delivery %d", im.k, im.w, im.ev)); v != nil {
 				return v
 			}
 		}
@@ -868,7 +902,7 @@ func (c05) Exec(raw json.RawMessage, st *simrt.Stats, log *simrt.Log) *simrt.Vio
 }
 
 // c05SecondCrash boots the images taken during a restart's own repair writes: the process died again.
-func c05SecondCrash(recovery []*simdisk.Disk, forks node.Forks, k *c05Known, ev int, old, new common.Hash, st *simrt.Stats, desc string) *simrt.Violation {
+func c05SecondCrash(recovery []*simdisk.Disk, forks node.Forks, k *c05Known, ev int, old, new common.Hash, passed []common.Hash, st *simrt.Stats, desc string) *simrt.Violation {
 	for j, d2 := range recovery {
 		rn2 := node.Boot(d2, forks, false)
 		st.Fault("crash_during_recovery")
@@ -888,6 +922,13 @@ func c05SecondCrash(recovery []*simdisk.Disk, forks node.Forks, k *c05Known, ev 
 		for _, x := range k.ancestors(old) {
 			if x == h {
 				inOld = true
+			}
+		}
+		for _, ph := range passed {
+			for _, x := range k.ancestors(ph) {
+				if x == h {
+					ok = true
+				}
 			}
 		}
 		if !ok && !inOld {
